@@ -184,11 +184,37 @@ func GuardsOfBlock(b *ssa.BasicBlock) []Atom {
 func HasAtom(as []Atom, re string, pol bool) bool {
 	rx := regexp.MustCompile(re)
 	for _, a := range as {
-		if a.Pos == pol && rx.MatchString(a.Expr) {
+		if a.Pos == pol && (rx.MatchString(a.Expr) || rx.MatchString(a.Mirrored())) {
 			return true
 		}
 	}
 	return false
+}
+
+// Mirrored returns the other spelling of an ordering atom — `(b > a)` for
+// `(a < b)`, `(b >= a)` for `(a <= b)` and vice versa — or "" when the atom is not
+// an ordering comparison. Rules written against one spelling accept both.
+func (a Atom) Mirrored() string {
+	b, ok := a.V.(*ssa.BinOp)
+	if !ok {
+		return ""
+	}
+	var op string
+	switch b.Op {
+	case token.LSS:
+		op = ">"
+	case token.GTR:
+		op = "<"
+	case token.LEQ:
+		op = ">="
+	case token.GEQ:
+		op = "<="
+	case token.EQL, token.NEQ:
+		op = "==" // MkAtom renders both as an equality with the polarity adjusted
+	default:
+		return ""
+	}
+	return "(" + Render(b.Y) + " " + op + " " + Render(b.X) + ")"
 }
 
 // FindAtom returns the first atom matching (re, pol).
@@ -626,4 +652,64 @@ func PureHelper(fn *ssa.Function) bool {
 		}
 	})
 	return pure
+}
+
+// ExpandConjunctions replaces every atom «φ is true» whose φ is a pure
+// conjunction of literals (`ok := a && !b && c`, hoisted into a named boolean)
+// by those literals: branching on the name establishes exactly the facts that
+// branching on the operands would. Rules that count independent conditions
+// («under no further condition») call this before WithoutImplied so that a
+// named conjunction is neither an extra condition nor hides its operands.
+func ExpandConjunctions(as []Atom) []Atom {
+	var out []Atom
+	for _, a := range as {
+		phi, ok := a.V.(*ssa.Phi)
+		if !ok || !a.Pos {
+			out = append(out, a)
+			continue
+		}
+		be, err := BoolExprOf(phi)
+		if err != nil {
+			out = append(out, a)
+			continue
+		}
+		names := be.AtomNames()
+		if len(names) == 0 || len(names) > 8 {
+			out = append(out, a)
+			continue
+		}
+		sat := 0
+		for m := 0; m < 1<<len(names); m++ {
+			env := map[string]bool{}
+			for i, n := range names {
+				env[n] = m&(1<<i) != 0
+			}
+			if be.Eval(env) {
+				sat++
+			}
+		}
+		var lits []Atom
+		for _, ia := range impliedAtoms(phi, true, 0) {
+			if _, isPhi := ia.V.(*ssa.Phi); isPhi || ia.Via != "" {
+				continue
+			}
+			lits = append(lits, ia)
+		}
+		if sat != 1 || len(lits) != len(names) {
+			out = append(out, a) // not a conjunction of literals: keep the φ atom
+			continue
+		}
+		out = append(out, lits...)
+	}
+	// de-duplicate
+	seen := map[atomKey]bool{}
+	var uniq []Atom
+	for _, a := range out {
+		k := keyOf(a)
+		if !seen[k] {
+			seen[k] = true
+			uniq = append(uniq, a)
+		}
+	}
+	return uniq
 }
